@@ -105,7 +105,10 @@ class Script:
                 cls = getattr(statew, op['wcls'] + '_' + kind)
             kw = dict(op.get('ctor', {}))
             if kind in ('R', 'PR'):
-                kw['host'] = self.d.get_server().addr if 'host' not in op else tuple(op['host'])
+                if op.get('host') == 'fake':
+                    kw['host'] = self.fake_addr
+                else:
+                    kw['host'] = self.d.get_server().addr if 'host' not in op else tuple(op['host'])
             if 'args' in op:
                 kw['args'] = op['args'] if not op.get('args_tuple') else tuple(op['args'])
             if 'kwargs' in op:
@@ -214,6 +217,81 @@ class Script:
                     break
                 out.append(_rep(r))
             return {'ret': out, 'end': end}
+        if o == 'stacks':
+            import traceback
+            out = {}
+            for tid, fr in sys._current_frames().items():
+                out[str(tid)] = [l.strip() for l in traceback.format_stack(fr)[-4:]]
+            return {'ret': out}
+        if o == 'child_pid':
+            w = self.obj(op['var'])
+            return {'ret': getattr(getattr(w, '_child', None), 'pid', None)}
+        if o == 'fake_server':
+            return self.fake_server(op)
+        if o == 'land_spec':
+            import json as _json
+            import tempfile
+            self.land_dir = tempfile.mkdtemp(prefix='pwv_c20_', dir=self.d.base)
+            spec = {'run_dir': self.land_dir, 'arm': op['arm'], 'files': op.get('files', ['pyworkers/']), 'events': op.get('events', []), 'inprocess': False}
+            with open(self.d.spec_path + '.tmp', 'w') as f:
+                _json.dump(spec, f)
+            os.rename(self.d.spec_path + '.tmp', self.d.spec_path)
+            os.environ['PWV_SPEC'] = self.d.spec_path
+            return {'ret': True}
+        if o == 'land_off':
+            import json as _json
+            with open(self.d.spec_path, 'w') as f:
+                _json.dump({'off': True}, f)
+            return {'ret': True}
+        if o == 'land_report':
+            sites = []
+            landed = []
+            try:
+                for fn in sorted(os.listdir(self.land_dir)):
+                    pth = os.path.join(self.land_dir, fn)
+                    if fn.startswith('events.'):
+                        with open(pth) as f:
+                            for ln in f:
+                                a = ln.split()
+                                if len(a) >= 4:
+                                    sites.append([a[1], int(a[2]), a[3]])
+                    elif fn.startswith('reached.'):
+                        import json as _json
+                        with open(pth) as f:
+                            landed.append(_json.load(f))
+            except OSError:
+                pass
+            return {'ret': {'sites': sites, 'landed': landed}}
+        if o == 'respawn_server':
+            if self.d.server is not None:
+                try:
+                    self.d.server.terminate(timeout=1, force=True)
+                except Exception:  # noqa
+                    pass
+                self.d.server = None
+            os.environ['PWV_SPEC'] = self.d.spec_path
+            st, val = self.raw(lambda: self.d.get_server().addr, 20)
+            return {'ret': _rep(val)} if st == 'ret' else {st: val}
+        if o == 'server_children':
+            # live processes whose parent is the server (backends, context helpers); zombies do not count
+            time.sleep(op.get('after', 0.3))
+            srv = self.d.server
+            out = []
+            if srv is not None:
+                spid = srv._child.pid
+                for d in os.listdir('/proc'):
+                    if d.isdigit():
+                        try:
+                            with open('/proc/%s/stat' % d) as f:
+                                rest = f.read().rsplit(')', 1)[-1].split()
+                            if int(rest[1]) == spid and rest[0] not in ('Z', 'X'):
+                                with open('/proc/%s/cmdline' % d, 'rb') as f:
+                                    cmd = f.read().replace(b'\0', b' ').decode('utf-8', 'replace')
+                                if 'resource_tracker' not in cmd:
+                                    out.append(int(d))
+                        except (OSError, ValueError, IndexError):
+                            pass
+            return {'ret': out}
         if o == 'ctx_create':
             from pyworkers.remote_context import RemoteContext
             host = self.d.get_server().addr
@@ -315,6 +393,80 @@ class Script:
         if o == 'tagged':
             return {'ret': tagged_pids(self.run_id, exclude=op.get('exclude', ()))}
         raise ValueError('unknown op %r' % (o,))
+
+    def fake_server(self, op):
+        """A scripted peer playing the server side of the handshake: the control-address message on the data connection and
+        the runtime-info message on the control connection, each cut after a given number of bytes with FIN or RST."""
+        import socket as _s
+        import struct
+        import threading
+        from pyworkers.remote import send_msg
+
+        class Cap:
+            def __init__(self):
+                self.b = bytearray()
+
+            def sendall(self, x):
+                self.b += x
+        lst = _s.socket(_s.AF_INET, _s.SOCK_STREAM)
+        lst.bind(('127.0.0.1', 0))
+        lst.listen()
+        self.fake_addr = lst.getsockname()
+        ctl = _s.socket(_s.AF_INET, _s.SOCK_STREAM)
+        ctl.bind(('127.0.0.1', 0))
+        ctl.listen()
+        if op.get('ctrl') == 'closed-port':
+            ctl_addr = ctl.getsockname()
+            ctl.close()
+        else:
+            ctl_addr = ctl.getsockname()
+        c1 = Cap()
+        send_msg(c1, tuple(ctl_addr))
+        addr_msg = bytes(c1.b)
+        c2 = Cap()
+        send_msg(c2, ('fakehost', 4242, 4242, 4242))
+        info_msg = bytes(c2.b)
+        phase, cut, ending = op['phase'], op['cut'], op['ending']
+
+        def end(sock):
+            try:
+                if ending == 'RST':
+                    sock.setsockopt(_s.SOL_SOCKET, _s.SO_LINGER, struct.pack('ii', 1, 0))
+                sock.close()
+            except OSError:
+                pass
+
+        def serve():
+            try:
+                lst.settimeout(10)
+                cli, _ = lst.accept()
+                if phase == 'addr':
+                    cli.sendall(addr_msg[:cut])
+                    time.sleep(0.02)
+                    end(cli)
+                    return
+                cli.sendall(addr_msg)
+                if op.get('ctrl') == 'closed-port':
+                    time.sleep(0.5)
+                    end(cli)
+                    return
+                ctl.settimeout(10)
+                cc, _ = ctl.accept()
+                cc.sendall(info_msg[:cut])
+                time.sleep(0.02)
+                end(cc)
+                time.sleep(0.2)
+                end(cli)
+            except OSError:
+                pass
+            finally:
+                for x in (lst, ctl):
+                    try:
+                        x.close()
+                    except OSError:
+                        pass
+        threading.Thread(target=serve, daemon=True).start()
+        return {'ret': {'addr_len': len(addr_msg), 'info_len': len(info_msg)}}
 
     def cleanup(self):
         left = []
